@@ -718,5 +718,167 @@ theorem ce_formula_deriv {m n : ℕ} (t x : Fin m × Fin n → ℝ) (ij : Fin m 
   simp only [Finset.sum_neg_distrib, Finset.univ_product_univ]
   ring
 
+/-! ## The graph the losses build: node values, tracking, back edges -/
+
+/-- status of node `k` in heap `H`: holds `v`, is not spent, is tracked iff `tr`, and if tracked has back edges `es` -/
+structure St (H : Heap ℝ) (k : Nat) (v : Tensor ℝ) (tr : Bool) (es : List (Edge ℝ)) : Prop where
+  lt : k < H.size
+  val : H.val k = v
+  clean : H.dirty k = false
+  tracked : H.tracked k = tr
+  edges : tr = true → (H.ctx k).edges = es
+
+theorem St.mono {H H' : Heap ℝ} {k : Nat} {v : Tensor ℝ} {tr : Bool} {es : List (Edge ℝ)} (h : St H k v tr es)
+    (e : Extends H H') : St H' k v tr es where
+  lt := Nat.lt_of_lt_of_le h.lt e.1
+  val := by rw [e.val h.lt]; exact h.val
+  clean := by unfold Heap.dirty; rw [e.ctx h.lt]; exact h.clean
+  tracked := by unfold Heap.tracked; rw [e.ctx h.lt]; exact h.tracked
+  edges := by rw [e.ctx h.lt]; exact h.edges
+
+theorem all_not_tracked (H : Heap ℝ) (ops : List Nat) :
+    ops.all (fun n => !H.tracked n) = !(ops.any H.tracked) := by
+  induction ops with
+  | nil => rfl
+  | cons x xs ih => simp only [List.all_cons, List.any_cons, ih, Bool.not_or]
+
+theorem mkCtx_st (H : Heap ℝ) (ops : List Nat) (es : List (Edge ℝ)) (hc : ∀ n ∈ ops, H.dirty n = false) :
+    (mkCtx H ops es).dirty = false ∧ (mkCtx H ops es).tracked = ops.any H.tracked ∧
+    (ops.any H.tracked = true → (mkCtx H ops es).edges = es) := by
+  have h1 : ops.any H.dirty = false := by
+    rw [List.any_eq_false]
+    intro n hn; rw [hc n hn]; simp
+  unfold mkCtx
+  rw [h1, all_not_tracked]
+  cases h2 : ops.any H.tracked <;> simp [freshCtx]
+
+/-- allocating a node with the three-way context of `gradients.go` over unspent operands -/
+theorem st_push (H : Heap ℝ) (v : Tensor ℝ) (ops : List Nat) (es : List (Edge ℝ)) (hc : ∀ n ∈ ops, H.dirty n = false) :
+    St (H.push ⟨v, mkCtx H ops es⟩) H.size v (ops.any H.tracked) es := by
+  obtain ⟨c1, c2, c3⟩ := mkCtx_st H ops es hc
+  have hctx : Heap.ctx (H.push ⟨v, mkCtx H ops es⟩) H.size = mkCtx H ops es := by simp [Heap.ctx]
+  refine ⟨by simp, push_val_new H _, ?_, ?_, ?_⟩
+  · unfold Heap.dirty; rw [hctx]; exact c1
+  · unfold Heap.tracked; rw [hctx]; exact c2
+  · rw [hctx]; exact c3
+
+section GraphOps
+variable {H : Heap ℝ} {x : Nat} {vx : Tensor ℝ} {trx : Bool} {esx : List (Edge ℝ)}
+
+theorem g_scale (hx : St H x vx trx esx) (a : ℝ) :
+    ∃ H', hScale x a H = .ok (H.size, H') ∧ Extends H H' ∧ H'.size = H.size + 1 ∧
+      St H' H.size (vScale vx a) trx [⟨x, .scaleX a⟩] := by
+  refine ⟨H.push ⟨vScale (H.val x) a, mkCtx H [x] [⟨x, .scaleX a⟩]⟩,
+    by simp [hScale, hOp1, hm_bind, getHeap, liftOut, alloc, Out.bind], extends_push _ _, by simp, ?_⟩
+  have := st_push H (vScale (H.val x) a) [x] [⟨x, .scaleX a⟩] (by simpa using hx.clean)
+  simpa [hx.val, hx.tracked] using this
+
+theorem g_pow (hx : St H x vx trx esx) (a : ℝ) :
+    ∃ H', hPow x a H = .ok (H.size, H') ∧ Extends H H' ∧ H'.size = H.size + 1 ∧
+      St H' H.size (vPow vx a) trx [⟨x, .powX x a⟩] := by
+  refine ⟨H.push ⟨vPow (H.val x) a, mkCtx H [x] [⟨x, .powX x a⟩]⟩,
+    by simp [hPow, hOp1, hm_bind, getHeap, liftOut, alloc, Out.bind], extends_push _ _, by simp, ?_⟩
+  have := st_push H (vPow (H.val x) a) [x] [⟨x, .powX x a⟩] (by simpa using hx.clean)
+  simpa [hx.val, hx.tracked] using this
+
+theorem g_log (hx : St H x vx trx esx) :
+    ∃ H', hUnary .log x H = .ok (H.size, H') ∧ Extends H H' ∧ H'.size = H.size + 1 ∧
+      St H' H.size (vUnary .log vx) trx [⟨x, .logX x⟩] := by
+  refine ⟨H.push ⟨vUnary .log (H.val x), mkCtx H [x] [⟨x, .logX x⟩]⟩,
+    by simp [hUnary, hOp1, hm_bind, getHeap, liftOut, alloc, Out.bind, unaryRule], extends_push _ _, by simp, ?_⟩
+  have := st_push H (vUnary .log (H.val x)) [x] [⟨x, .logX x⟩] (by simpa using hx.clean)
+  simpa [hx.val, hx.tracked] using this
+
+theorem g_along (hx : St H x vx trx esx) (rd : Reducer) (d : Int) (v : Tensor ℝ) (h : vAlong rd vx d = .ok v) :
+    ∃ H', hAlong rd x d H = .ok (H.size, H') ∧ Extends H H' ∧ H'.size = H.size + 1 ∧
+      St H' H.size v trx [⟨x, alongRule rd x H.size d.toNat⟩] := by
+  refine ⟨H.push ⟨v, mkCtx H [x] [⟨x, alongRule rd x H.size d.toNat⟩]⟩, ?_, extends_push _ _, by simp, ?_⟩
+  · unfold hAlong
+    rw [bind_run (show (getHeap : HM ℝ (Heap ℝ)) H = .ok (H, H) from rfl), hx.val, h]
+    simp [hOp1, hm_bind, getHeap, liftOut, alloc, Out.bind]
+  · have := st_push H v [x] [⟨x, alongRule rd x H.size d.toNat⟩] (by simpa using hx.clean)
+    simpa [hx.tracked] using this
+
+theorem g_bcast (hx : St H x vx trx esx) (s : List Int) (v : Tensor ℝ) (h : vBroadcast vx s = .ok v) :
+    ∃ H', hBroadcast x s H = .ok (H.size, H') ∧ Extends H H' ∧ H'.size = H.size + 1 ∧
+      St H' H.size v trx [⟨x, .bcastX x H.size⟩] := by
+  refine ⟨H.push ⟨v, mkCtx H [x] [⟨x, .bcastX x H.size⟩]⟩, ?_, extends_push _ _, by simp, ?_⟩
+  · unfold hBroadcast
+    rw [bind_run (show (getHeap : HM ℝ (Heap ℝ)) H = .ok (H, H) from rfl), hx.val, h]
+    simp [hOp1, hm_bind, getHeap, liftOut, alloc, Out.bind]
+  · have := st_push H v [x] [⟨x, .bcastX x H.size⟩] (by simpa using hx.clean)
+    simpa [hx.tracked] using this
+
+/-- ElMax / ElMin: two tie-aware back edges -/
+theorem g_ext {a b : Nat} {va vb : Tensor ℝ} {tra trb : Bool} {esa esb : List (Edge ℝ)} (c : Cmp)
+    (hc : c = .elmax ∨ c = .elmin) (ha : St H a va tra esa) (hb : St H b vb trb esb) (v : Tensor ℝ)
+    (h : vCmp c va vb = .ok v) :
+    ∃ H', hCmp c a b H = .ok (H.size, H') ∧ Extends H H' ∧ H'.size = H.size + 1 ∧
+      St H' H.size v (tra || trb) [⟨a, .elext H.size a b⟩, ⟨b, .elext H.size b a⟩] := by
+  refine ⟨H.push ⟨v, mkCtx H [a, b] [⟨a, .elext H.size a b⟩, ⟨b, .elext H.size b a⟩]⟩, ?_, extends_push _ _,
+    by simp, ?_⟩
+  · rcases hc with rfl | rfl <;>
+      simp [hCmp, hm_bind, getHeap, liftOut, alloc, Out.bind, ha.val, hb.val, h]
+  · have := st_push H v [a, b] [⟨a, .elext H.size a b⟩, ⟨b, .elext H.size b a⟩]
+      (by intro n hn; simp at hn; rcases hn with rfl | rfl; exact ha.clean; exact hb.clean)
+    simpa [ha.tracked, hb.tracked] using this
+
+/-- the back edges of an arithmetic result towards its two (broadcast) operands -/
+def arithEdges (o : Arith) (a' b' : Nat) : List (Edge ℝ) :=
+  match o with
+  | .add => [⟨a', .idG⟩, ⟨b', .idG⟩]
+  | .sub => [⟨a', .idG⟩, ⟨b', .negG⟩]
+  | .mul => [⟨a', .mulG b'⟩, ⟨b', .mulG a'⟩]
+  | .div => [⟨a', .divA b'⟩, ⟨b', .divB a' b'⟩]
+
+/-- Add / Sub / Mul / Div on operands of one shape: three nodes — `Broadcast(a)`, `Broadcast(b)` (identity copies,
+    each with one Broadcast back edge) and the result -/
+theorem g_arith {ι : Type} {d : List Nat} {Z : List ι} (hZ : Z.length = prod d) (hd : ∀ x ∈ d, 0 < x) (o : Arith)
+    {a b : Nat} {f g : ι → ℝ} {tra trb : Bool} {esa esb : List (Edge ℝ)}
+    (ha : St H a ⟨d, Z.map f⟩ tra esa) (hb : St H b ⟨d, Z.map g⟩ trb esb) :
+    ∃ H', hArith o a b H = .ok (H.size + 2, H') ∧ Extends H H' ∧ H'.size = H.size + 3 ∧
+      St H' H.size ⟨d, Z.map f⟩ tra [⟨a, .bcastX a H.size⟩] ∧
+      St H' (H.size + 1) ⟨d, Z.map g⟩ trb [⟨b, .bcastX b (H.size + 1)⟩] ∧
+      St H' (H.size + 2) ⟨d, Z.map (fun z => o.fn (f z) (g z))⟩ (tra || trb) (arithEdges o H.size (H.size + 1)) := by
+  have wa : (⟨d, Z.map f⟩ : Tensor ℝ).WF := wf_map hZ hd f
+  have wb : (⟨d, Z.map g⟩ : Tensor ℝ).WF := wf_map hZ hd g
+  have hshape : targetBroadcastDims (H.val a).dims (H.val b).dims = d := by
+    rw [ha.val, hb.val]; exact targetBroadcastDims_self d
+  have hba : vBroadcast (⟨d, Z.map f⟩ : Tensor ℝ) (d.map Int.ofNat) = .ok ⟨d, Z.map f⟩ := vBroadcastN_self _ wa
+  have hbb : vBroadcast (⟨d, Z.map g⟩ : Tensor ℝ) (d.map Int.ofNat) = .ok ⟨d, Z.map g⟩ := vBroadcastN_self _ wb
+  obtain ⟨Ha, ra, ea, sa, sta⟩ := g_bcast ha (d.map Int.ofNat) _ hba
+  obtain ⟨Hb, rb, eb, sb, stb⟩ := g_bcast (hb.mono ea) (d.map Int.ofNat) _ hbb
+  have sta' := sta.mono eb
+  rw [sa] at rb stb
+  let v : Tensor ℝ := ⟨d, Z.map (fun z => o.fn (f z) (g z))⟩
+  have hz : Tensor.zipRaw o.fn (⟨d, Z.map f⟩ : Tensor ℝ) ⟨d, Z.map g⟩ = some v := by
+    simp [Tensor.zipRaw, v, C14.zipWith_maps]
+  have hclean : ∀ n ∈ [H.size, H.size + 1], Hb.dirty n = false := by
+    intro n hn; simp at hn; rcases hn with rfl | rfl
+    · exact sta'.clean
+    · exact stb.clean
+  have hsb : Hb.size = H.size + 2 := by rw [sb, sa]
+  refine ⟨Hb.push ⟨v, mkCtx Hb [H.size, H.size + 1] (arithEdges o H.size (H.size + 1))⟩, ?_,
+    (ea.trans eb).trans (extends_push _ _), by simp [hsb], sta'.mono (extends_push _ _), stb.mono (extends_push _ _), ?_⟩
+  · unfold hArith hBroadcastPair
+    rw [hm_bind, hm_bind]
+    rw [show (getHeap : HM ℝ (Heap ℝ)) H = .ok (H, H) from rfl]
+    simp only [Out.bind]
+    rw [hshape, hm_bind, ra]
+    simp only [Out.bind]
+    rw [hm_bind, rb]
+    simp only [Out.bind, pure, StateT.pure]
+    rw [hm_bind]
+    rw [show (getHeap : HM ℝ (Heap ℝ)) Hb = .ok (Hb, Hb) from rfl]
+    simp only [Out.bind]
+    rw [hm_bind, sta'.val, stb.val, hz]
+    simp only [Out.ofOpt, liftOut, Out.bind, alloc, hsb]
+    cases o <;> rfl
+  · have := st_push Hb v [H.size, H.size + 1] (arithEdges o H.size (H.size + 1)) hclean
+    rw [hsb] at this
+    simpa [sta'.tracked, stb.tracked] using this
+
+end GraphOps
+
 end C13x
 end Qeep
